@@ -376,7 +376,7 @@ impl StepHandler for H15 {
     }
 
     fn on_send(&mut self, world: &mut World, before: &ModelState, i: usize, s: &SendStep, o: &SendObs, stats: &mut Stats, out: &mut Vec<Finding>) {
-        let pred = predict(&world.root, before, s, Reading::Condition);
+        let pred = super::predict_seen(world, before, s, o, Reading::Condition);
         if !pred.structural {
             return;
         }
